@@ -13,7 +13,7 @@ pub const RULE: &str = "a valid writer call sequence V (all presentations: Start
 each failing call is constructed to fail by contract: tag not allowed under the open chain (ref_match false), explicit width w with payload length >= 2^(7w)-1 (a leaf, or a Full master whose children are accepted one by one and whose content turns out too long when it is closed), unknown-size option (or the deprecated write_unknown_size call) on a non-master, raw tag with a malformed id \
 (0, 1, 0x7F, 0x1FF, 0x8000, >= 2^63), End of a master that is not the innermost open one / with nothing open, Full master whose first / middle / last child is not allowed, is a stray End (of the master itself or of the enclosing one), or is a child master that is opened and never closed. Oracle: the inserted call returns a non-I/O error; \
 every other call returns Ok as in the run without insertions; after every call the destination is a prefix of W(V); the final bytes after flush() are identical to W(V). \
-Non-trivial: a failing call is made while >= 1 master is open and is followed by >= 1 successful write; distinct by (V, insertions).";
+Stage any_calls_without_the_refused_one: 1-4 arbitrary calls (any element as leaf / Start / End / Full with arbitrary children, default / width / unknown-size option, the deprecated unknown-size call, write_raw) are mixed into V; while some call returns a non-I/O error, the sequence is run again without the FIRST such call and both runs are compared from there on — verdict of every later call, destination length after each, flush result, final bytes — up to four times per case. Non-trivial: a failing call is made while >= 1 master is open and is followed by >= 1 successful write (stage 1), at least one call refused (stage 3); distinct by (V, insertions).";
 
 pub const ASSUMPTIONS: &[&str] = &[
     "the destination never fails (I/O errors are outside the property)",
